@@ -37,3 +37,54 @@ fn hook_kkt_constructor_agrees_with_real_constructor() {
         assert_eq!(lk::map_Hsblocks(&real), lk::map_Hsblocks(&hook));
     }
 }
+
+/// Translation validation of `assemble_kkt_matrix_soc_store` (sparse-expansion map list held in a caller
+/// store): same K and same index maps as the real `assemble_kkt_matrix` for layouts whose sparse cones
+/// are second-order cones, both triangles, several P patterns.
+#[test]
+fn hook_assembly_with_map_store_agrees_with_real_assembly() {
+    use clarabel::verif_hooks::core::direct::verif_hooks_kkt as kk;
+    fn check<const S: usize>(cones_t: &[SupportedConeT<f64>], m: usize, sdims: [usize; S]) {
+        let ps = [
+            CscMatrix::from(&[[2.0, 1.0], [0.0, 3.0]]),
+            CscMatrix::from(&[[0.0, 1.0], [0.0, 0.0]]),
+            CscMatrix::<f64>::spalloc((2, 2), 0),
+            CscMatrix::from(&[[4.0, 0.0], [0.0, 0.0]]),
+        ];
+        for P in ps.iter() {
+            for dense_a in [true, false] {
+                let rows: Vec<[f64; 2]> =
+                    (0..m).map(|i| [if dense_a || i % 3 == 0 { 1.0 + i as f64 } else { 0.0 }, if i % 2 == 0 && !dense_a { 0.0 } else { -2.0 }]).collect();
+                let A = CscMatrix::from(rows.iter());
+                let cones = CompositeCone::<f64>::new(cones_t);
+                for triu in [true, false] {
+                    let (k_real, m_real) = kk::assemble_kkt_matrix(P, &A, &cones, triu);
+                    let mut store = kk::VSocMapStore::<S>::new(sdims);
+                    let (k_hook, m_hook) = kk::assemble_kkt_matrix_soc_store(P, &A, &cones, triu, &mut store);
+                    assert_eq!(k_real, k_hook);
+                    assert_eq!(m_real.P, m_hook.P());
+                    assert_eq!(m_real.A, m_hook.A());
+                    assert_eq!(m_real.Hsblocks, m_hook.Hsblocks());
+                    assert_eq!(m_real.diagP, m_hook.diagP());
+                    assert_eq!(m_real.diag_full, m_hook.diag_full());
+                    assert_eq!(m_real.sparse_maps.len(), m_hook.n_sparse());
+                    for (i, sm) in m_real.sparse_maps.iter().enumerate() {
+                        match sm {
+                            kk::VSparseMap::SOC { u, v, D } => {
+                                let (hu, hv, hd) = m_hook.soc(i);
+                                assert_eq!((&u[..], &v[..], *D), (hu, hv, hd));
+                            }
+                            _ => panic!("layout with a non-SOC sparse cone"),
+                        }
+                    }
+                }
+            }
+        }
+    }
+    check::<0>(&[NonnegativeConeT(2), SecondOrderConeT(3)], 5, []);
+    check::<1>(&[SecondOrderConeT(5)], 5, [5]);
+    check::<1>(&[SecondOrderConeT(2), SecondOrderConeT(5)], 7, [5]);
+    check::<1>(&[NonnegativeConeT(1), SecondOrderConeT(5), ZeroConeT(1)], 7, [5]);
+    check::<1>(&[ExponentialConeT(), SecondOrderConeT(5)], 8, [5]);
+    check::<2>(&[SecondOrderConeT(6), PowerConeT(0.3), SecondOrderConeT(5), NonnegativeConeT(2)], 16, [6, 5]);
+}
